@@ -20,7 +20,7 @@ OPS = {"+": operator.add, "-": operator.sub, "*": operator.mul, "/": operator.tr
 PREC = {"+": 1, "-": 1, "*": 2, "/": 2}
 STATS = [dict(min=-1.0, max=3.0, mean=0.5, std=2.0), dict(min=0.25, max=8.0, mean=1.5, std=0.5), dict(min=-4.0, max=-0.5, mean=-2.0, std=0.0)]
 LEAVES6 = ("2", "0.5", "mean", "min", "max", "std")
-LEAVES_NUM = ("1e3", "3.", "0.25", "2.5e-1", "10", "mean")
+LEAVES_NUM = ("1e3", "3.", "0.25", "2.5e-1", "4e+1", "10", "mean")
 LEAVES4 = ("2", "0.5", "mean", "std")
 
 META = dict(
